@@ -22,7 +22,7 @@ RULE = ("one evaluation = one seeded writer history (<= 5 sessions, <= 30 operat
         "verify point; non-trivial = at least one state-changing write and one oracle comparison; distinct = distinct "
         "event-log digests (operation sequence + data hashes + results)")
 STATE_MEASURE = "distinct (mode, session index, feature kind, part length relative to chunk length, nan pattern) tuples"
-PROBES = ["metadata_dict_shared_with_other_file", "side_file_with_other_event_shape", "first_access_with_lossy_dtype", "remainder_after_full_chunk", "append_across_sessions", "replace_existing", "reset_nonempty",
+PROBES = ["refused_contour_then_more_contours", "metadata_dict_shared_with_other_file", "side_file_with_other_event_shape", "first_access_with_lossy_dtype", "remainder_after_full_chunk", "append_across_sessions", "replace_existing", "reset_nonempty",
           "log_append_longer_than_first", "log_multibyte", "bare_close", "h5file_target", "contour_across_sessions",
           "rejected_call", "table_with_attrs", "trace_subset_replace", "part_equals_chunk", "single_event_part", "integer_table"]
 COMPONENTS = {
@@ -266,7 +266,7 @@ class Machine:
                 key = r.choice(sorted(cands))
                 keys.append([sec, key, r.choice(META_REPS[META_TYPES[sec][key]])])
             return {"k": "meta", "dseed": r.randrange(1 << 30), "keys": keys}
-        return {"k": "reject", "what": r.choice(["empty", "unknown_feat", "unknown_trace", "unknown_meta_key", "unknown_meta_sec"])}
+        return {"k": "reject", "what": r.choice(["empty", "unknown_feat", "unknown_trace", "unknown_meta_key", "unknown_meta_sec", "empty_contour", "empty_contour"])}
 
     def gen_round(self, r):
         n = r.choice([1, 2, 3, 5, 9, 10, 11, 12, 16, 21, 33])
@@ -563,6 +563,13 @@ class Machine:
                 hw.store_feature("not_a_feature", np.arange(3.0))
             elif what == "unknown_trace":
                 hw.store_feature("trace", {"fl9_raw": np.zeros((max(1, self.N), 11), dtype=np.int16)})
+            elif what == "empty_contour":
+                # an event without contour points is refused (HDF5 cannot store a dataset of zero rows in chunks) before anything
+                # is written; the caller then goes on writing contours
+                if self.mode == "replace" or flen(self.m.feats.get("contour")) <= 0:
+                    return
+                ctx.probe("refused_contour_then_more_contours")
+                hw.store_feature("contour", [np.zeros((0, 2), dtype=np.int32)])
             elif what == "unknown_meta_key":
                 hw.store_metadata({"setup": {"no such key": 1}})
             elif what == "unknown_meta_sec":
